@@ -58,6 +58,19 @@ def directed_chains():
         for k in ((1,) if cmd == "FuzzyNot" else (2, 3) if cmd == "FuzzyXOr" else (1, 2, 9)):
             params = {"FuzzySelectedUnion": {"TruestOrFalsest": "Truest", "NumberToConsider": 1}, "FuzzyWeightedUnion": {"Weights": [1] * k}}.get(cmd, {})
             cases.append(Case(cmd, params, [wide.copy() if j % 2 == 0 else -wide.copy() for j in range(k)]))
+    # curves whose slopes are no binary fractions, with cells exactly on the control points and on the thresholds: the value at the end of a segment
+    # may come out one unit in the last place beyond the control value - still inside the range after limiting
+    for raw in ([1, 366], [1, 11], [2000, 2007], [0.1, 0.7], [3, 10], [1, 7, 13], [0.3, 0.9, 2.1, 3.3]):
+        for fv in ([-1, 1], [1, -1]):
+            vals = [fv[k % 2] for k in range(len(raw))]
+            cells = sorted(set(list(raw) + [(a + b) / 2.0 for a, b in zip(raw, raw[1:])] + [raw[0] + (raw[-1] - raw[0]) / 3.0, raw[0] - 1, raw[-1] + 1]))
+            cases.append(Case("CvtToFuzzyCurve", {"RawValues": list(raw), "FuzzyValues": vals}, [numpy.ma.array(numpy.array(cells, dtype=float))]))
+            cases.append(Case("CvtToFuzzy", {"TrueThreshold": raw[-1], "FalseThreshold": raw[0]}, [numpy.ma.array(numpy.array(cells, dtype=float))]))
+            cases.append(Case("CvtToFuzzyCat", {"RawValues": list(raw), "FuzzyValues": vals, "DefaultFuzzyValue": 0}, [numpy.ma.array(numpy.array(cells, dtype=float))]))
+    for data in ([1.0, 2.0, 4.0, 11.0, 366.0], [0.1, 0.2, 0.7, 0.7, 0.3], [3.0, 3.0, 10.0, 7.0]):
+        for cmd, params in (("CvtToFuzzyMeanToMid", {"IgnoreZeros": False, "FuzzyValues": [-1, -0.5, 0, 0.5, 1]}), ("CvtToFuzzyMeanToMid", {"IgnoreZeros": True, "FuzzyValues": [1, 0.3, 0, -0.3, -1]}),
+                            ("CvtToFuzzyZScore", {}), ("CvtToFuzzyCurveZScore", {"ZScoreValues": [-1, 0.3, 1], "FuzzyValues": [-1, 0.1, 1]})):
+            cases.append(Case(cmd, params, [numpy.ma.array(numpy.array(data))]))
     for f in (f1, f2, f3, f4):
         cases.append(Case("FuzzyNot", {}, [f]))
         cases.append(Case("FuzzyUnion", {}, [f, f2]))
